@@ -312,6 +312,15 @@ pub fn run(args: &Args) -> Report {
             r
         }));
     }
+    // every byte of every constructor's entry determined by its arguments; two polls on one descriptor
+    {
+        n_cases_planned += crate::ops_sqebytes::CTORS.len() as u64 + 3;
+        items.push(isolated("sqebytes", move || {
+            let mut r = Report::new();
+            crate::ops_sqebytes::run_all(&mut r, false);
+            r
+        }));
+    }
     // every constant the wrapper exports against the kernel's uapi values
     {
         n_cases_planned += crate::ops_flags::constant_table().len() as u64;
